@@ -43,10 +43,71 @@ def cases(tier, seed):
     # of that claim (the CA is operational from the instant its claim for an address below 128 is on the bus)
     for i in range(n // 8):
         out.append(dict(stacks=[[rng.choice(['normal', 'cannot', 'moved'])]], react=True, seed=rng.randrange(1 << 30)))
+    # a second request handled while the first is still being dispatched to the CAs of the stack
+    for i in range(n // 8):
+        out.append(dict(kind='nested', stacks=[], seed=rng.randrange(1 << 30)))
     return out
 
 
+def run_nested(case):
+    """2-3 operational CAs on one stack, zero-latency bus.  A global request for P1 reaches them one after the other; the application behind the
+    FIRST one answers from inside its request callback with a frame, to which a scripted node reacts at once with a global request for P2 --
+    handled by the stack while it is still in the middle of dispatching the first request.  Every CA must be told both requests with their own
+    requester address, destination and PGN."""
+    rng = random.Random(case['seed'])
+    layer = 'j1939-21'
+    W = World(case['seed'], layer, (0.00005, 0.0003), 1.0)
+    sim = W.sim
+    viol = M.Violations()
+    tag = dict(layer=layer)
+    node = W.stack('S0')
+    n = rng.choice([2, 3])
+    addrs = rng.sample(range(2, 120), n + 2)
+    r_addr, q_addr = addrs[n], addrs[n + 1]
+    P1 = rng.choice([0xFECA, 0xFEE5, 0x1F004, 0xEF00 | 0])
+    P2 = rng.choice([0xFEDA, 0xFEB1, 0x0F000])
+    cas = []
+    calls = {}
+    for i in range(n):
+        ca = W.ca(node, addrs[i], name_value=C.name_value(identity_number=300 + i), bypass=True)
+        calls[i] = []
+
+        def cb(src, dst, pgn, i=i, ca=ca):
+            calls[i].append((src, dst, pgn))
+            if i == 0 and pgn == P1 and len([c for c in calls[0] if c[2] == P1]) == 1:
+                ca.send_pgn(0, 0xFE, 0xCA, 6, [1, 2, 3, 4, 5, 6, 7, 8])          # the application answers from inside the callback
+        ca.subscribe_request(cb)
+        cas.append(ca)
+    reacted = []
+
+    class Reactor(ScriptNode):
+        def on_frame(self, fr):
+            idf = C.split_id(fr.can_id)
+            if fr.src == 'S0' and idf['pf'] == 0xFE and idf['ps'] == 0xCA and not reacted:
+                reacted.append(sim.now)
+                self.send(C.make_id(6, 0, C.PF_REQUEST, 255, q_addr), C.request_payload(P2))
+    Reactor(W.bus, 'Q')
+    X = ScriptNode(W.bus, 'X')
+    W.run(0.05)
+    X.send(C.make_id(6, 0, C.PF_REQUEST, 255, r_addr), C.request_payload(P1))
+    W.run(0.1)
+    obs = dict(requests_sent=2, callbacks_expected=2 * n, claim_answers_expected=0, requests_to_unowned=0, reactive_cases=0, nested_cases=1)
+    if not reacted:
+        viol.add('reactive_setup', 'the answer sent from inside the request callback never reached the bus', **tag)
+    for i in range(n):
+        want = sorted([(r_addr, 255, P1), (q_addr, 255, P2)])
+        if sorted(calls[i]) != want:
+            viol.add('request_callbacks', 'CA %d of %d (address %d): a request for %05X from %d, and -- handled while that one was still being dispatched -- a request for %05X from %d: callbacks %s, expected %s'
+                     % (i, n, addrs[i], P1, r_addr, P2, q_addr, calls[i], want), how='nested', **tag)
+    M.m_live(viol, W, layer)
+    res = dict(violations=list(viol), inconclusive=None, sig=repr(('nested', n)), nontrivial=True, obs=obs, sample=dict(case=case, calls={str(k): v for k, v in calls.items()}))
+    W.close()
+    return res
+
+
 def run_case(case):
+    if case.get('kind') == 'nested':
+        return run_nested(case)
     rng = random.Random(case['seed'])
     layer = 'j1939-21'
     W = World(case['seed'], layer, (0.00005, 0.0003), 1.0 if case.get('react') else rng.choice([0.0, 0.0, 0.5]))
@@ -152,7 +213,8 @@ def run_case(case):
             c['held'] = c['pref'] + 1
         ok = {'none': c['ca'].state == ST.NONE, 'wait_veto': c['ca'].state == ST.WAIT_VETO, 'normal': c['ca'].state == ST.NORMAL,
               'bypass': c['ca'].state == ST.NORMAL, 'cannot': c['ca'].state == ST.CANNOT_CLAIM,
-              'moved': c['ca'].state == ST.NORMAL and c['ca'].device_address == c['pref'] + 1}[st]
+              # (the harness's own record decides where the CA is: it claimed pref + 1 on the bus after the loss and nobody contested it)
+              'moved': c['ca'].state == ST.NORMAL and any(f.src == c['node'].name and C.split_id(f.can_id)['pf'] == C.PF_ADDRESS_CLAIM and (f.can_id & 0xFF) == c['pref'] + 1 for f in W.bus.frames)}[st]
         if not ok:
             W.close()
             return dict(violations=[], inconclusive='could not drive %s into state %s (is %r at %r)' % (c['label'], st, c['ca'].state, c['ca'].device_address),
